@@ -662,7 +662,7 @@ def align_renamed_locals(fn: ast.FunctionDef, base: dict) -> int:
 
 
 def untype_locals(tree: ast.AST) -> int:
-    """``x: T = v`` on a plain local inside a function is ``x = v`` for every rule (annotations never change behaviour)."""
+    """``x: T = v`` on a plain local or an attribute inside a function is ``x = v`` for every rule (annotations never change behaviour)."""
     count = 0
     for fn in ast.walk(tree):
         if not isinstance(fn, (ast.FunctionDef, ast.AsyncFunctionDef)):
@@ -673,7 +673,7 @@ def untype_locals(tree: ast.AST) -> int:
                 if not (isinstance(lst, list) and lst and isinstance(lst[0], ast.stmt)):
                     continue
                 for i, st in enumerate(lst):
-                    if isinstance(st, ast.AnnAssign) and isinstance(st.target, ast.Name) and st.value is not None:
+                    if isinstance(st, ast.AnnAssign) and isinstance(st.target, (ast.Name, ast.Attribute)) and st.value is not None:
                         lst[i] = ast.copy_location(ast.Assign(targets=[st.target], value=st.value, type_comment=None), st)
                         count += 1
     return count
